@@ -85,6 +85,13 @@ async function judge(ctx, req, label) {
       return viol(`panic@${res.panic.file}:${res.panic.line}`, "panic", `${res.panic.file}:${res.panic.line}: ${res.panic.msg}`);
     case "died": {
       if (res.code === 3) return judgeHang(ctx, req, viol); // the server announced a hang and left before the line was read
+      // the death must belong to this request: alone in a fresh process it has to die again
+      const alone = compileOnce({ ...req, cpu_budget_ms: 60000 }, { timeoutMs: 600000 });
+      if (alone.outcome === "hang" || alone.outcome === "timeout") return judgeHang(ctx, req, viol);
+      if (alone.outcome !== "died") {
+        ctx.inconclusive("worker-death-not-reproduced-by-the-request-alone");
+        return;
+      }
       const fns = gdbSignature(req, "crash");
       // two recorded root causes of unbounded recursion are named by the functions of their cycle
       const has = (re) => fns.some((f) => re.test(f));
